@@ -753,10 +753,15 @@ class PVLParser(object):
         Returns the decoded <Value> as an appropriate Python object.
         """
         value = None
+        # Remember the token of a Simple Value (see OmniParser's
+        # parse_module_post_hook(), which needs to know how the last
+        # value was written, not just what it decoded to).
+        self._simple_value = None
 
         try:
             t = next(tokens)
             value = self.decoder.decode_simple_value(t)
+            self._simple_value = (t, value)
         except ValueError:
             tokens.send(t)
             for p in (
@@ -939,9 +944,18 @@ class OmniParser(PVLParser):
             t = next(tokens)
             if t == "=" and len(module) != 0:
                 (last_k, last_v) = module[-1]
-                last_token = Token(
-                    last_v, grammar=self.grammar, decoder=self.decoder
-                )
+                # Only a value that was written as a bare word can have
+                # been meant as the next Parameter Name: a quoted string,
+                # a number or a time whose decoded value merely stringifies
+                # to name-like text cannot.  So judge the token as it was
+                # written, when parse_value() remembered it.
+                written = getattr(self, "_simple_value", None)
+                if written is not None and written[1] is last_v:
+                    last_token = written[0]
+                else:
+                    last_token = Token(
+                        last_v, grammar=self.grammar, decoder=self.decoder
+                    )
                 if last_token.is_parameter_name():
                     # Fix the previous entry
                     module.pop()
